@@ -11,6 +11,7 @@
 //!     (a memory error must not take the harness down) — listed finding F22.
 use bytes::Bytes;
 use futures::FutureExt;
+use std::future::Future;
 use rustrtc::media::error::MediaError;
 use rustrtc::media::frame::{AudioFrame, MediaKind, MediaSample};
 use rustrtc::media::track::{sample_track, MediaStreamTrack, SampleStreamSource, SampleStreamTrack};
@@ -145,6 +146,7 @@ enum Ret {
     Recv(u32),
     Eos,
     Pending,
+    Cancelled,
     Bad(String),
 }
 fn act_term(a: &Act) -> String {
@@ -174,6 +176,7 @@ fn ret_term(r: &Ret) -> String {
         Ret::Recv(v) => format!("RRecv {}", v),
         Ret::Eos => "REos".into(),
         Ret::Pending => "RPending".into(),
+        Ret::Cancelled => "RCancelled".into(),
         Ret::Bad(_) => "RPending".into(), // never compared: a Bad result is an oracle failure
     }
 }
@@ -794,6 +797,79 @@ fn stress_ring(cap: usize, n: u32) -> (Vec<String>, serde_json::Value) {
     (viol, json!({"capacity": cap, "values": n, "full_retries": fulls.load(Ordering::Relaxed)}))
 }
 
+
+/// pipeline queue shared by several producer threads (`&SampleQueueSender` is Sync; e.g. two media
+/// pumps feeding one `Arc<ChannelMediaSink>`): lossless try_send, one consumer
+fn stress_pipe_mpsc(cap: usize, producers: usize, per: u32) -> (Vec<String>, serde_json::Value) {
+    use rustrtc::media::pipeline::{ChannelMediaSource, MediaSource};
+    let total = producers as u32 * per;
+    let ledger = Ledger::new(total as usize);
+    let (tx, mut rx) = ChannelMediaSource::channel(MediaKind::Audio, cap);
+    let tx = Arc::new(tx);
+    let refused: Arc<Vec<AtomicU32>> = Arc::new((0..total).map(|_| AtomicU32::new(0)).collect());
+    let mut joins = vec![];
+    for p in 0..producers {
+        let (tx, ledger, refused) = (tx.clone(), ledger.clone(), refused.clone());
+        joins.push(std::thread::spawn(move || {
+            for i in 0..per {
+                let id = p as u32 * per + i;
+                loop {
+                    match tx.try_send(sample(id, &ledger)) {
+                        Ok(()) => break,
+                        Err(_) => { refused[id as usize].fetch_add(1, Ordering::SeqCst); std::thread::yield_now(); }
+                    }
+                }
+            }
+        }));
+    }
+    drop(tx);
+    let consumer = std::thread::spawn(move || {
+        let mut got: Vec<Result<u32, String>> = vec![];
+        let mut end = "eos";
+        block_on(async {
+            loop {
+                match tokio::time::timeout(Duration::from_secs(4), rx.next_sample()).await {
+                    Ok(Ok(s)) => got.push(sample_id(&s)),
+                    Ok(Err(_)) => break,
+                    Err(_) => { end = "timeout"; break; }
+                }
+            }
+        });
+        (got, end)
+    });
+    let mut viol = vec![];
+    for j in joins { if j.join().is_err() { viol.push("a producer thread panicked".to_string()); } }
+    let (got, end) = consumer.join().unwrap_or((vec![], "consumer panicked"));
+    if end != "eos" { viol.push(format!("no end-of-stream after the sender was dropped ({}; {} received)", end, got.len())); }
+    let mut seen = vec![false; total as usize];
+    let mut last: Vec<Option<u32>> = vec![None; producers];
+    for g in &got {
+        match g {
+            Err(m) => viol.push(m.clone()),
+            Ok(id) if *id >= total => viol.push(format!("unknown sample {}", id)),
+            Ok(id) => {
+                let p = (*id / per) as usize;
+                if seen[*id as usize] { viol.push(format!("sample {} received twice", id)); }
+                seen[*id as usize] = true;
+                if let Some(l) = last[p] { if l >= *id { viol.push(format!("producer {}: {} after {}", p, id, l)); } }
+                last[p] = Some(*id);
+            }
+        }
+    }
+    let missing = seen.iter().filter(|x| !**x).count();
+    if missing > 0 && end == "eos" { viol.push(format!("{} accepted samples never delivered", missing)); }
+    drop(got);
+    let mut dbl = 0; let mut leak = 0;
+    for i in 0..total as usize {
+        let want = 1 + refused[i].load(Ordering::SeqCst);
+        let have = ledger.drops[i].load(Ordering::SeqCst);
+        if have < want { leak += 1 } else if have > want { dbl += 1 }
+    }
+    if leak > 0 || dbl > 0 { viol.push(format!("payload drop balance: {} never released, {} released twice", leak, dbl)); }
+    viol.truncate(6);
+    (viol, json!({"queue": "pipeline", "capacity": cap, "producers": producers, "per_producer": per, "end": end}))
+}
+
 fn conc_case(out: &mut Out, viol: Vec<String>, info: serde_json::Value, kind: &str, known_class: Option<&str>) {
     let failed = !viol.is_empty();
     out.push(Case {
@@ -818,7 +894,7 @@ fn child_mpsc(args: &[String]) -> ! {
         stop_after: None,
         seed: args[5].parse().unwrap(),
     };
-    let (viol, info) = stress_track(&cfg);
+    let (viol, info) = if args.get(6).map(|x| x == "pipe").unwrap_or(false) { stress_pipe_mpsc(cfg.cap, cfg.producers, cfg.per_producer) } else { stress_track(&cfg) };
     println!("{}", json!({"violations": viol, "info": info}));
     std::process::exit(0)
 }
@@ -864,18 +940,35 @@ fn run_child_mpsc(cap: usize, producers: usize, per: u32, mode: Mode, shared: bo
 
 
 // ------------------------------------------------------------------------------ (d) schedule replay on real threads (hook H2)
+/// yield id of the producer-side lock (F22 repair); mirrors rustrtc::verif_sched::SRC_PUSH_LOCK
+const SRC_PUSH_LOCK: u32 = 28;
+
 #[derive(Clone, Debug)]
 enum POp {
     Push(u32),
     TrySend(u32),
     Send(u32),
+    SendMany(Vec<u32>),
     CloneSrc,
     DropSrc,
+    /// pipeline queue: drop of the (only) SampleQueueSender
+    DropTx,
 }
-#[derive(Clone, Debug)]
+#[derive(Clone, Debug, PartialEq)]
 enum COp {
     Pop,
     Recv,
+    /// recv() whose future is dropped (cancelled) when it is scheduled while pending at its await
+    RecvCancel,
+    /// pipeline queue: SampleQueueReceiver::recv (through ChannelMediaSource::next_sample)
+    RecvQ,
+    RecvQCancel,
+}
+#[derive(Clone, Copy, Debug, PartialEq)]
+enum QKind {
+    Ring,
+    Track,
+    Pipe,
 }
 #[derive(Clone, Debug)]
 struct ConcCase {
@@ -884,6 +977,13 @@ struct ConcCase {
     nstop: usize,
     pprogs: Vec<Vec<POp>>,
     plan: Vec<usize>,
+}
+impl ConcCase {
+    fn kind(&self) -> QKind {
+        if self.cprog.iter().any(|o| matches!(o, COp::RecvQ | COp::RecvQCancel)) || self.pprogs.iter().flatten().any(|o| matches!(o, POp::DropTx)) { QKind::Pipe }
+        else if self.cprog.iter().any(|o| matches!(o, COp::Pop)) || self.pprogs.iter().flatten().any(|o| matches!(o, POp::Push(_))) { QKind::Ring }
+        else { QKind::Track }
+    }
 }
 struct ConcOut {
     sched: Vec<usize>,
@@ -897,12 +997,20 @@ fn pop_term(o: &POp) -> String {
         POp::Push(v) => format!("OPush {}", v),
         POp::TrySend(v) => format!("OTrySend {}", v),
         POp::Send(v) => format!("OSend {}", v),
+        POp::SendMany(l) => format!("OSendMany {}", zlist(l.iter().map(|x| *x as i128))),
         POp::CloneSrc => "OClone".into(),
         POp::DropSrc => "ODropSrc".into(),
+        POp::DropTx => "ODropTx".into(),
     }
 }
 fn cop_term(o: &COp) -> String {
-    match o { COp::Pop => "OPop".into(), COp::Recv => "ORecv".into() }
+    match o {
+        COp::Pop => "OPop".into(), COp::Recv => "ORecv".into(), COp::RecvCancel => "ORecvC".into(),
+        COp::RecvQ => "ORecvQ".into(), COp::RecvQCancel => "ORecvQC".into(),
+    }
+}
+fn pop_vals(o: &POp) -> Vec<u32> {
+    match o { POp::Push(v) | POp::TrySend(v) | POp::Send(v) => vec![*v], POp::SendMany(l) => l.clone(), _ => vec![] }
 }
 
 fn flag_waker(sh: Arc<Shared>, t: usize) -> std::task::Waker {
@@ -914,17 +1022,37 @@ fn flag_waker(sh: Arc<Shared>, t: usize) -> std::task::Waker {
     std::task::Waker::from(Arc::new(W(sh, t)))
 }
 
+/// drive one future on the consumer worker; Err(()) = the run is being shut down
+fn drive<T>(sh: &Arc<Shared>, fut: std::pin::Pin<&mut (dyn Future<Output = T> + Send + '_)>, cancelable: bool) -> Result<Option<T>, ()> {
+    let waker = flag_waker(sh.clone(), 0);
+    let mut cx = std::task::Context::from_waker(&waker);
+    let mut fut = fut;
+    loop {
+        match fut.as_mut().poll(&mut cx) {
+            std::task::Poll::Ready(v) => return Ok(Some(v)),
+            std::task::Poll::Pending => match sh.park_pending(0, cancelable) {
+                sched::Parked::Resume => {}
+                sched::Parked::Cancel => return Ok(None),
+                sched::Parked::Abort => return Err(()),
+            },
+        }
+    }
+}
+
 fn run_conc(case: &ConcCase) -> ConcOut {
+    use rustrtc::media::pipeline::{ChannelMediaSource, MediaSource};
     use std::sync::Mutex;
     let np = case.pprogs.len();
     let nthreads = 2 + np;
-    let raw = case.cprog.iter().any(|o| matches!(o, COp::Pop)) || case.pprogs.iter().flatten().any(|o| matches!(o, POp::Push(_)));
-    let max_id = case.pprogs.iter().flatten().filter_map(|o| match o { POp::Push(v) | POp::TrySend(v) | POp::Send(v) => Some(*v as usize + 1), _ => None }).max().unwrap_or(0);
+    let kind = case.kind();
+    let max_id = case.pprogs.iter().flatten().flat_map(pop_vals).map(|v| v as usize + 1).max().unwrap_or(0);
     let ledger = Ledger::new(max_id);
     let shared = Shared::new(nthreads);
     let results: Arc<Vec<Mutex<Vec<Ret>>>> = Arc::new((0..nthreads).map(|_| Mutex::new(vec![])).collect());
     let ring: Arc<SpscRing<Tracked>> = Arc::new(SpscRing::with_capacity(case.cap));
     let (source, track, fb) = sample_track(MediaKind::Audio, case.cap);
+    let (qtx, qrx) = ChannelMediaSource::channel(MediaKind::Audio, case.cap);
+    let mut qtx = Some(qtx);
     let mut sources = vec![];
     for _ in 1..np { sources.push(source.clone()); } // no hook on this thread: plain fetch_add
     sources.push(source);
@@ -932,27 +1060,34 @@ fn run_conc(case: &ConcCase) -> ConcOut {
     // consumer
     {
         let (sh, res, ring, track, prog) = (shared.clone(), results.clone(), ring.clone(), track.clone(), case.cprog.clone());
+        let mut qrx = qrx;
         joins.push(std::thread::spawn(move || {
             sh.install_hook(0);
             while let Some(i) = sh.next_cmd(0) {
-                match prog[i] {
-                    COp::Pop => {
-                        let r = match ring.pop() { Some(t) => if t.check == !t.id { Ret::Pop(Some(t.id)) } else { Ret::Bad(format!("corrupted value id={}", t.id)) }, None => Ret::Pop(None) };
-                        res[0].lock().unwrap().push(r);
-                    }
-                    COp::Recv => {
-                        let waker = flag_waker(sh.clone(), 0);
-                        let mut cx = std::task::Context::from_waker(&waker);
+                let r: Result<Ret, ()> = match prog[i] {
+                    COp::Pop => Ok(match ring.pop() { Some(t) => if t.check == !t.id { Ret::Pop(Some(t.id)) } else { Ret::Bad(format!("corrupted value id={}", t.id)) }, None => Ret::Pop(None) }),
+                    COp::Recv | COp::RecvCancel => {
                         let mut fut = track.recv();
-                        loop {
-                            match fut.as_mut().poll(&mut cx) {
-                                std::task::Poll::Ready(Ok(s)) => { res[0].lock().unwrap().push(match sample_id(&s) { Ok(id) => Ret::Recv(id), Err(m) => Ret::Bad(m) }); break; }
-                                std::task::Poll::Ready(Err(MediaError::EndOfStream)) => { res[0].lock().unwrap().push(Ret::Eos); break; }
-                                std::task::Poll::Ready(Err(e)) => { res[0].lock().unwrap().push(Ret::Bad(format!("{:?}", e))); break; }
-                                std::task::Poll::Pending => { if !sh.park_pending(0) { vs::set_hook(None); return; } }
-                            }
-                        }
+                        drive(&sh, fut.as_mut(), prog[i] == COp::RecvCancel).map(|o| match o {
+                            None => Ret::Cancelled,
+                            Some(Ok(s)) => match sample_id(&s) { Ok(id) => Ret::Recv(id), Err(m) => Ret::Bad(m) },
+                            Some(Err(MediaError::EndOfStream)) => Ret::Eos,
+                            Some(Err(e)) => Ret::Bad(format!("{:?}", e)),
+                        })
                     }
+                    COp::RecvQ | COp::RecvQCancel => {
+                        let mut fut = qrx.next_sample();
+                        drive(&sh, fut.as_mut(), prog[i] == COp::RecvQCancel).map(|o| match o {
+                            None => Ret::Cancelled,
+                            Some(Ok(s)) => match sample_id(&s) { Ok(id) => Ret::Recv(id), Err(m) => Ret::Bad(m) },
+                            Some(Err(MediaError::EndOfStream)) => Ret::Eos,
+                            Some(Err(e)) => Ret::Bad(format!("{:?}", e)),
+                        })
+                    }
+                };
+                match r {
+                    Ok(r) => res[0].lock().unwrap().push(r),
+                    Err(()) => { vs::set_hook(None); return; }
                 }
                 sh.op_done(0);
             }
@@ -974,28 +1109,40 @@ fn run_conc(case: &ConcCase) -> ConcOut {
     for k in 0..np {
         let (sh, res, ring, prog, ledger) = (shared.clone(), results.clone(), ring.clone(), case.pprogs[k].clone(), ledger.clone());
         let src = sources.pop().unwrap();
+        let mut tx = if k == 0 { qtx.take() } else { None };
         joins.push(std::thread::spawn(move || {
             let t = 2 + k;
             let mut handles = vec![src];
             sh.install_hook(t);
             while let Some(i) = sh.next_cmd(t) {
-                let r = match &prog[i] {
-                    POp::Push(v) => Some(match ring.push(tracked(*v, &ledger)) { Ok(()) => Ret::PushOk, Err(_) => Ret::PushFull }),
-                    POp::TrySend(v) => Some(match handles[0].try_send(sample(*v, &ledger)) {
+                let pipe = tx.is_some() && kind == QKind::Pipe;
+                let mut rs: Vec<Ret> = vec![];
+                match &prog[i] {
+                    POp::Push(v) => rs.push(match ring.push(tracked(*v, &ledger)) { Ok(()) => Ret::PushOk, Err(_) => Ret::PushFull }),
+                    POp::TrySend(v) if pipe => rs.push(match tx.as_ref().unwrap().try_send(sample(*v, &ledger)) { Ok(()) => Ret::TryOk, Err(_) => Ret::WouldBlock }),
+                    POp::Send(v) if pipe => rs.push(match tx.as_ref().unwrap().send(sample(*v, &ledger)) { Ok(()) => Ret::SendOk, Err(()) => Ret::Closed }),
+                    POp::TrySend(v) => rs.push(match handles[0].try_send(sample(*v, &ledger)) {
                         Ok(()) => Ret::TryOk, Err(MediaError::WouldBlock) => Ret::WouldBlock, Err(MediaError::Closed) => Ret::Closed, Err(e) => Ret::Bad(format!("{:?}", e)) }),
-                    POp::Send(v) => Some(match handles[0].send(sample(*v, &ledger)) {
+                    POp::Send(v) => rs.push(match handles[0].send(sample(*v, &ledger)) {
                         Ok(()) => Ret::SendOk, Err(MediaError::Closed) => Ret::Closed, Err(e) => Ret::Bad(format!("{:?}", e)) }),
-                    POp::CloneSrc => { let c = handles[0].clone(); handles.push(c); None }
-                    POp::DropSrc => { handles.pop(); None }
+                    POp::SendMany(l) => match handles[0].send_many(l.iter().map(|v| sample(*v, &ledger)).collect::<Vec<_>>()) {
+                        Ok(()) => { for _ in l { rs.push(Ret::SendOk); } rs.push(Ret::ManyOk); }
+                        Err(e) => rs.push(Ret::Bad(format!("send_many: {:?}", e))),
+                    },
+                    POp::CloneSrc => { let c = handles[0].clone(); handles.push(c); }
+                    POp::DropSrc => { handles.pop(); }
+                    POp::DropTx => { tx = None; }
                 };
-                if let Some(r) = r { res[t].lock().unwrap().push(r); }
+                res[t].lock().unwrap().extend(rs);
                 sh.op_done(t);
             }
             vs::set_hook(None);
             drop(handles);
+            drop(tx);
         }));
     }
     drop(sources);
+    drop(qtx);
 
     // ---- controller
     let mut sched = vec![];
@@ -1003,45 +1150,95 @@ fn run_conc(case: &ConcCase) -> ConcOut {
     let mut handles = vec![1i32; np];
     let mut c_lock = false;
     let mut p_lock = vec![false; np];
+    let mut push_held: Option<usize> = None;      // producer inside the producer-side lock (F22 repair)
+    let mut many_seen = vec![0usize; np];          // closed checks seen inside the running send_many
+    let (mut tail_stores, mut head_stores) = (0u64, 0u64);
     let mut broken: Option<String> = None;
     let mut viol: Vec<String> = vec![];
     let mut eos_checked = 0usize;
+    let mut eos_seen = false;
     let nops = |t: usize| -> usize { if t == 0 { case.cprog.len() } else if t == 1 { case.nstop } else { case.pprogs[t - 2].len() } };
+    let is_lock_id = |id: u32| id == vs::RECV_LOCK || id == vs::Q_LOCK;
+    let is_unlock_id = |id: u32| [vs::RECV_UNLOCK_RET, vs::RECV_UNLOCK_EOS, vs::RECV_UNLOCK_WAIT, vs::Q_UNLOCK_RET, vs::Q_UNLOCK_EOS, vs::Q_UNLOCK_WAIT].contains(&id);
     'plan: for &t in &case.plan {
         if t >= nthreads { continue; }
         let (st, _woken) = shared.state(t);
+        let cur_cop = if t == 0 && next_op[0] > 0 { Some(case.cprog[next_op[0] - 1].clone()) } else { None };
+        let cancelable = matches!(cur_cop, Some(COp::RecvCancel) | Some(COp::RecvQCancel));
         let step: Result<(), String> = (|| {
+            // an operation of producer t-2 has just returned: model steps without a real access
+            let finished = |sched: &mut Vec<usize>, push_held: &mut Option<usize>, t: usize, op_idx: usize| {
+                if t >= 2 {
+                    let _ = &push_held;
+                    if let POp::SendMany(l) = &case.pprogs[t - 2][op_idx] { if !l.is_empty() { sched.push(t); } } // fetch of `OSendMany []`
+                }
+            };
             match st {
                 TState::Exited | TState::Running => Ok(()),
                 TState::Idle => {
                     if next_op[t] >= nops(t) { return Ok(()); }
+                    if t == 0 && eos_seen && kind == QKind::Pipe { return Ok(()); } // ChannelMediaSource latches end-of-stream locally
                     if t >= 2 {
                         if handles[t - 2] <= 0 { return Ok(()); }
-                        match case.pprogs[t - 2][next_op[t]] { POp::CloneSrc => handles[t - 2] += 1, POp::DropSrc => handles[t - 2] -= 1, _ => {} }
+                        match case.pprogs[t - 2][next_op[t]] { POp::CloneSrc => handles[t - 2] += 1, POp::DropSrc | POp::DropTx => handles[t - 2] -= 1, _ => {} }
+                        many_seen[t - 2] = 0;
                     }
-                    shared.start_op(t, next_op[t])?;
+                    let st2 = shared.start_op(t, next_op[t])?;
                     next_op[t] += 1;
                     sched.push(t);
+                    if st2 == TState::Idle { finished(&mut sched, &mut push_held, t, next_op[t] - 1); }
                     Ok(())
                 }
                 TState::AtYield(id) => {
-                    if t == 0 && id == vs::RECV_LOCK && p_lock.iter().any(|x| *x) {
+                    if t == 0 && cancelable && id == sched::WAKE {
+                        shared.cancel(t)?;
+                        sched.push(t);
+                        return Ok(());
+                    }
+                    if t == 0 && is_lock_id(id) && p_lock.iter().any(|x| *x) {
                         return Ok(()); // blocked on the mutex: not enabled in the model either
                     }
+                    if t >= 2 && id == SRC_PUSH_LOCK && push_held.is_some() {
+                        return Ok(()); // blocked on the producer lock
+                    }
                     if t >= 2 {
+                        if id == SRC_PUSH_LOCK { push_held = Some(t - 2); }
                         if id == vs::SRC_TRY_LOCK && !c_lock && !p_lock.iter().any(|x| *x) { p_lock[t - 2] = true; }
                         if id == vs::SRC_UNLOCK { p_lock[t - 2] = false; }
+                        if id == vs::SRC_LOAD_CLOSED {
+                            many_seen[t - 2] += 1;
+                            if many_seen[t - 2] > 1 { sched.push(t); } // fetch of the next sample of send_many
+                        }
                     }
                     if t == 0 {
-                        if id == vs::RECV_LOCK { c_lock = true; }
-                        if id == vs::RECV_UNLOCK_RET || id == vs::RECV_UNLOCK_EOS || id == vs::RECV_UNLOCK_WAIT { c_lock = false; }
+                        if is_lock_id(id) { c_lock = true; }
+                        if is_unlock_id(id) { c_lock = false; }
                     }
-                    shared.grant(t)?;
+                    if id == vs::PUSH_STORE_TAIL { tail_stores += 1; }
+                    if id == vs::POP_STORE_HEAD { head_stores += 1; }
+                    let st2 = shared.grant(t)?;
                     sched.push(t);
-                    if id == vs::EMPTY_LOADS { sched.push(t); }
+                    if id == vs::EMPTY_LOADS {
+                        sched.push(t);
+                        // pipeline recv: `is_empty() && !closed.load()` is one expression; the closed load
+                        // follows without a yield point exactly when the ring was empty
+                        if kind == QKind::Pipe && tail_stores == head_stores { sched.push(t); }
+                    }
+                    // leaving try_send / try_send_drop_oldest releases the producer lock (no yield point of its own)
+                    if t >= 2 && push_held == Some(t - 2) && (st2 == TState::Idle || st2 == TState::AtYield(vs::SRC_LOAD_CLOSED)) {
+                        push_held = None;
+                        sched.push(t);
+                    }
+                    if st2 == TState::Idle { finished(&mut sched, &mut push_held, t, next_op[t] - 1); }
                     Ok(())
                 }
-                TState::Pending => Ok(()), // registered and not woken: not enabled in the model either
+                TState::Pending => {
+                    if t == 0 && cancelable {
+                        shared.cancel(t)?;
+                        sched.push(t);
+                    }
+                    Ok(()) // otherwise: registered and not woken, not enabled in the model either
+                }
             }
         })();
         if let Err(e) = step { broken = Some(e); break 'plan; }
@@ -1059,13 +1256,14 @@ fn run_conc(case: &ConcCase) -> ConcOut {
             let cr = results[0].lock().unwrap().clone();
             if cr.len() > eos_checked {
                 eos_checked = cr.len();
+                if cr.last() == Some(&Ret::Eos) { eos_seen = true; }
                 if cr.last() == Some(&Ret::Eos) && next_op[1] == 0 && !cr[..cr.len() - 1].contains(&Ret::Eos) {
                     if handles.iter().any(|h| *h > 0) {
                         viol.push(format!("end-of-stream while {} source handles are alive and stop() was not called", handles.iter().filter(|h| **h > 0).count()));
                     }
                     let accepted: Vec<u32> = (0..np).flat_map(|k| {
-                        let rets = results[2 + k].lock().unwrap().clone();
-                        let vals: Vec<u32> = case.pprogs[k].iter().filter_map(|o| match o { POp::TrySend(v) | POp::Send(v) => Some(*v), _ => None }).collect();
+                        let rets: Vec<Ret> = results[2 + k].lock().unwrap().iter().filter(|r| !matches!(r, Ret::ManyOk)).cloned().collect();
+                        let vals: Vec<u32> = case.pprogs[k].iter().filter(|o| !matches!(o, POp::Push(_))).flat_map(pop_vals).collect();
                         rets.iter().zip(vals).filter(|(r, _)| matches!(r, Ret::TryOk | Ret::SendOk)).map(|(_, v)| v).collect::<Vec<_>>()
                     }).collect();
                     if accepted.len() <= case.cap {
@@ -1081,11 +1279,20 @@ fn run_conc(case: &ConcCase) -> ConcOut {
     }
     // ---- state at the end of the schedule
     let crets = results[0].lock().unwrap().clone();
-    let prets: Vec<Vec<Ret>> = (0..np).map(|k| results[2 + k].lock().unwrap().clone()).collect();
+    let mut prets: Vec<Vec<Ret>> = (0..np).map(|k| results[2 + k].lock().unwrap().clone()).collect();
+    // a send_many still running has already completed some of its sends: the model logs them one by one
+    for k in 0..np {
+        if next_op[2 + k] > 0 && !matches!(shared.state(2 + k).0, TState::Idle | TState::Exited) {
+            if let POp::SendMany(_) = &case.pprogs[k][next_op[2 + k] - 1] {
+                let reached = many_seen[k] + if shared.state(2 + k).0 == TState::AtYield(vs::SRC_LOAD_CLOSED) { 1 } else { 0 };
+                for _ in 1..reached { prets[k].push(Ret::SendOk); }
+            }
+        }
+    }
     if broken.is_none() {
         let (cst, cwoken) = shared.state(0);
         let producers_done = (0..np).all(|k| handles[k] == 0 && matches!(shared.state(2 + k).0, TState::Idle));
-        let stop_done = next_op[1] > 0 && matches!(shared.state(1).0, TState::Idle);
+        let stop_done = next_op[1] > 0 && matches!(shared.state(1).0, TState::Idle) && kind == QKind::Track;
         if cst == TState::Pending && !cwoken && (producers_done || stop_done) {
             viol.push(format!("recv() is pending and nothing will ever wake it: {} (lost wakeup)",
                 if stop_done { "stop() has returned" } else { "every source handle has been dropped" }));
@@ -1102,55 +1309,70 @@ fn run_conc(case: &ConcCase) -> ConcOut {
         if !seen.insert(*v) { viol.push(format!("sample {} received twice", v)); }
         let k = (*v / 1000) as usize;
         if k < np {
-            if !case.pprogs[k].iter().any(|o| matches!(o, POp::Push(x) | POp::TrySend(x) | POp::Send(x) if x == v)) { viol.push(format!("sample {} was never sent", v)); }
+            if !case.pprogs[k].iter().flat_map(pop_vals).any(|x| x == *v) { viol.push(format!("sample {} was never sent", v)); }
             if let Some(l) = last[k] { if l >= *v { viol.push(format!("producer {}: {} received after {}", k, v, l)); } }
             last[k] = Some(*v);
         } else { viol.push(format!("sample {} was never sent", v)); }
     }
     drop(track); drop(fb); drop(ring);
     // drop balance over the samples that were actually created
-    let created: Vec<usize> = (0..np).flat_map(|k| {
-        let n = prets[k].len(); // ops that returned; an op cut by the end of the schedule also created its sample
-        let _ = n;
-        case.pprogs[k].iter().filter_map(|o| match o { POp::Push(v) | POp::TrySend(v) | POp::Send(v) => Some(*v as usize), _ => None }).collect::<Vec<_>>()
-    }).collect();
+    let created: Vec<usize> = case.pprogs.iter().flatten().flat_map(pop_vals).map(|v| v as usize).collect();
     let started: std::collections::BTreeSet<usize> = (0..np).flat_map(|k| {
-        case.pprogs[k].iter().take(next_op[2 + k]).filter_map(|o| match o { POp::Push(v) | POp::TrySend(v) | POp::Send(v) => Some(*v as usize), _ => None }).collect::<Vec<_>>()
+        case.pprogs[k].iter().take(next_op[2 + k]).flat_map(pop_vals).map(|v| v as usize).collect::<Vec<_>>()
     }).collect();
     for id in created {
         let d = ledger.drops[id].load(Ordering::SeqCst);
         if d > 1 { viol.push(format!("payload {} released {} times", id, d)); }
         if d == 0 && started.contains(&id) { viol.push(format!("payload {} was never released (leak)", id)); }
     }
-    let _ = raw;
     viol.truncate(6);
     ConcOut { sched, crets, prets, viol, broken }
 }
 
+/// which replayed features Model/Spsc.v knows (cases outside get the term "-": direct oracle only)
+const MODEL_PIPE: bool = true;
+const MODEL_CANCEL: bool = true;
+const MODEL_MULTI: bool = true;
+fn model_supports(c: &ConcCase) -> bool {
+    (MODEL_PIPE || c.kind() != QKind::Pipe)
+        && (MODEL_CANCEL || !c.cprog.iter().any(|o| matches!(o, COp::RecvCancel | COp::RecvQCancel)))
+        && (MODEL_MULTI || c.pprogs.len() <= 1)
+}
+
 fn gen_conc(rng: &mut Rng, np: usize) -> ConcCase {
     let cap = *rng.pick(&[1usize, 1, 2, 2, 3, 4]);
-    let raw = rng.chance(1, 4);
+    let kind = if np == 1 { *rng.pick(&[QKind::Ring, QKind::Track, QKind::Track, QKind::Track, QKind::Pipe, QKind::Pipe]) } else { QKind::Track };
+    let raw = kind == QKind::Ring;
     let mut pprogs = vec![];
     for k in 0..np {
         let n = rng.range(1, 5) as u32;
         let mut prog = vec![];
         let mut h = 1;
-        for i in 0..n {
+        let mut i = 0u32;
+        while i < n {
             let v = k as u32 * 1000 + i;
+            i += 1;
             if raw { prog.push(POp::Push(v)); continue; }
-            match rng.below(10) {
+            if kind == QKind::Pipe { prog.push(if rng.chance(1, 2) { POp::Send(v) } else { POp::TrySend(v) }); continue; }
+            match rng.below(12) {
                 0..=3 => prog.push(POp::Send(v)),
                 4..=7 => prog.push(POp::TrySend(v)),
                 8 => { prog.push(POp::CloneSrc); h += 1; prog.push(POp::Send(v)); }
-                _ => { if h > 1 { prog.push(POp::DropSrc); h -= 1; } prog.push(POp::TrySend(v)); }
+                9 => { if h > 1 { prog.push(POp::DropSrc); h -= 1; } prog.push(POp::TrySend(v)); }
+                _ => { let m = rng.range(0, 3) as u32; prog.push(POp::SendMany((0..m).map(|j| v + j).collect())); i += m.saturating_sub(1); }
             }
         }
-        if !raw && rng.chance(5, 6) { for _ in 0..h { prog.push(POp::DropSrc); } }
+        if kind == QKind::Pipe { if rng.chance(5, 6) { prog.push(POp::DropTx); } }
+        else if !raw && rng.chance(5, 6) { for _ in 0..h { prog.push(POp::DropSrc); } }
         pprogs.push(prog);
     }
     let nrecv = rng.range(1, 6) as usize;
-    let cprog: Vec<COp> = (0..nrecv).map(|_| if raw { COp::Pop } else { COp::Recv }).collect();
-    let nstop = if !raw && rng.chance(1, 6) { 1 } else { 0 };
+    let cprog: Vec<COp> = (0..nrecv).map(|_| match kind {
+        QKind::Ring => COp::Pop,
+        QKind::Track => if rng.chance(1, 4) { COp::RecvCancel } else { COp::Recv },
+        QKind::Pipe => if rng.chance(1, 4) { COp::RecvQCancel } else { COp::RecvQ },
+    }).collect();
+    let nstop = if kind == QKind::Track && rng.chance(1, 6) { 1 } else { 0 };
     // plan: bursts of one thread
     let mut plan = vec![];
     let weights: Vec<u64> = (0..2 + np).map(|t| if t == 1 { if nstop > 0 { 1 } else { 0 } } else { *rng.pick(&[1u64, 2, 3, 5]) }).collect();
@@ -1169,7 +1391,7 @@ fn gen_conc(rng: &mut Rng, np: usize) -> ConcCase {
 fn replay_case(out: &mut Out, case: &ConcCase, kind: &str, known_class: Option<&str>) -> bool {
     let r = run_conc(case);
     let nlist = |l: &Vec<usize>| format!("[{}]", l.iter().map(|x| format!("{}%nat", x)).collect::<Vec<_>>().join("; "));
-    let term = if r.broken.is_some() { "-".to_string() } else {
+    let term = if r.broken.is_some() || !model_supports(case) { "-".to_string() } else {
         format!("mkConc {} {} {}%nat {} {} {} {}", case.cap,
             list_term(&case.cprog.iter().map(cop_term).collect::<Vec<_>>()), case.nstop,
             list_term(&case.pprogs.iter().map(|p| list_term(&p.iter().map(pop_term).collect::<Vec<_>>())).collect::<Vec<_>>()),
@@ -1311,6 +1533,7 @@ fn run_seq_children(out: &mut Out, tier: &str, seed: u64, thorough: bool) -> (st
 }
 
 
+const N_WITNESS: usize = 5;
 /// the replay inputs of a run: witnesses first, then generated programs + plans
 fn replay_inputs(seed: u64, thorough: bool) -> Vec<(ConcCase, &'static str, Option<&'static str>)> {
     let rep = |n: usize, t: usize| std::iter::repeat(t).take(n);
@@ -1328,10 +1551,15 @@ fn replay_inputs(seed: u64, thorough: bool) -> Vec<(ConcCase, &'static str, Opti
     // overwritten without being dropped: a leak here, a data race when the two writes overlap)
     v.push((ConcCase { cap: 2, cprog: vec![COp::Recv, COp::Recv], nstop: 0, pprogs: vec![vec![POp::Send(10)], vec![POp::Send(1020)]],
         plan: [2, 2, 2, 2, 3, 3, 3, 3, 2, 3, 2, 3, 2, 3].into_iter().chain(rep(18, 0)).collect() },
-        "corpus-replay-mpsc", Some("multi_producer_shared_source")));
+        "corpus-replay-mpsc", None));
+    // witness (C20-F28, pipeline queue): send + drop of the sender between recv()'s pop (empty) and its closed check
+    v.push((ConcCase { cap: 2, cprog: vec![COp::RecvQ, COp::RecvQ], nstop: 0, pprogs: vec![vec![POp::Send(7), POp::DropTx]],
+        plan: rep(4, 0).chain(rep(10, 2)).chain(rep(30, 0)).collect() }, "corpus-replay", None));
     let mut rng = Rng::new(seed ^ 0x5EED_0003);
-    for _ in 0..(if thorough { 40_000 } else { 3000 }) {
-        v.push((gen_conc(&mut rng, 1), "random-replay", None));
+    for i in 0..(if thorough { 40_000 } else { 3000 }) {
+        // every fourth case has 2 or 3 producer threads (cloned handles): push_lock serialises them
+        let np = if i % 4 == 3 { 2 + (i / 4) % 2 } else { 1 };
+        v.push((gen_conc(&mut rng, np), if np == 1 { "random-replay" } else { "random-replay-mpsc" }, None));
     }
     v
 }
@@ -1358,7 +1586,7 @@ fn child_replay(args: &[String]) -> ! {
     let so = std::io::stdout();
     let t0 = Instant::now();
     for (i, (case, kind, known)) in inputs.iter().enumerate().skip(skip) {
-        if i >= 4 && t0.elapsed() > Duration::from_secs(secs) { break; }
+        if i >= N_WITNESS && t0.elapsed() > Duration::from_secs(secs) { break; }
         { let mut o = so.lock(); writeln!(o, "B {}", i).unwrap(); o.flush().unwrap(); }
         let mut tmp = Out { dir: String::new(), cases: vec![] };
         replay_case(&mut tmp, case, kind, *known);
@@ -1379,7 +1607,7 @@ fn run_replay_children(out: &mut Out, tier: &str, seed: u64, thorough: bool) -> 
     let mut done = 0usize;
     while skip < inputs.len() && crashes < 12 {
         let left = total_budget.saturating_sub(t0.elapsed().as_secs());
-        if skip >= 4 && left == 0 { break; }
+        if skip >= N_WITNESS && left == 0 { break; }
         let mut child = std::process::Command::new(&exe)
             .args(["--child-replay", tier, &seed.to_string(), &skip.to_string(), &left.max(1).to_string()])
             .stdout(std::process::Stdio::piped()).stderr(std::process::Stdio::null()).spawn().expect("spawn child");
@@ -1545,7 +1773,7 @@ fn main() {
         let mode = if k % 2 == 0 { Mode::Lossless } else { Mode::Lossy };
         let shared = k % 4 >= 2;
         let (v, info) = run_child_mpsc(cap, producers, 20_000, mode, shared, args.seed + k);
-        conc_case(&mut out, v, info, "stress-track-mpsc", Some("multi_producer_shared_source"));
+        conc_case(&mut out, v, info, "stress-track-mpsc", None);
         nmpsc += 1;
         k += 1;
     }
